@@ -18,8 +18,8 @@ COMPONENTS = {
 
 R_STEPS = [('get', 2), ('attr', 6), ('tick', 1), ('item_attr', 3), ('sel', 2), ('sel_items', 2), ('sel_one', 1),
            ('load', 1), ('prefetch', 1), ('items_iter', 3), ('items_len', 2), ('items_count', 1), ('items_empty', 1),
-           ('items_in', 1), ('tags_iter', 2), ('tags_len', 1), ('nav', 2), ('own_write', 2), ('flush', 1), ('commit', 1)]
-W_STEPS = [('upd', 5), ('upd_item', 2), ('move', 3), ('del_item', 1), ('new_item', 1), ('tag_add', 1), ('tag_remove', 2)]
+           ('items_in', 1), ('tags_iter', 2), ('tags_len', 1), ('nav', 2), ('card', 2), ('card_acct', 2), ('own_write', 2), ('flush', 1), ('commit', 1)]
+W_STEPS = [('upd', 5), ('relink', 2), ('upd_item', 2), ('move', 3), ('del_item', 1), ('new_item', 1), ('tag_add', 1), ('tag_remove', 2)]
 
 
 def gen_case(seed, i, tier, with_faults=False):
